@@ -33,7 +33,7 @@ type C11Case struct {
 var _ = Register("C11", func() interface{} { return new(C11Case) }, func(c interface{}) string { return c11Oracle(c.(*C11Case)) })
 
 var c11Kinds = []Kind{KString, KStringPtr, KStringSlice, KInt, KInt8, KInt16, KInt32, KInt64, KUint, KUint8, KUint16, KUint32, KUint64,
-	KIntSlice, KIntPtr, KUint8Slice, KFloat32, KFloat64, KFloatSlice, KDuration, KDurSlice, KDurPtr, KMapFS, KMapSS, KMapSI, KMapIS, KUpper, KUpperSlice, KFuncI, KFuncS, KTri}
+	KIntSlice, KIntPtr, KUint8Slice, KFloat32, KFloat64, KFloatSlice, KDuration, KDurSlice, KDurPtr, KMapFS, KMapSS, KMapSI, KMapIS, KUpper, KUpperSlice, KFuncI, KFuncS, KTri, KLvl}
 
 var c11FloatPool = []string{"0", "-0", "1", "1.5", "-2.25", "1e3", "1E3", ".5", "5.", "+1", "1e", "e1", ".", "", " 1", "1 ", "1,5", "1_0", "1_0.5",
 	"3.4028234e38", "3.4028235e38", "3.4028236e38", "3.5e38", "-3.5e38", "1e39", "1e38", "1.401298464324817e-45", "1e-46", "7e-46",
